@@ -113,6 +113,8 @@ func C11(c *core.Ctx) {
 	// a number taken for a Session Report Request is not lost between serveUSAReport and the wire: the
 	// request is always booked for (re)transmission (shared with C09 R1)
 	sendReqAlwaysBooks(c, "R2")
+	// ... nor by leaving the emission loop after numbers were handed out (C10 R5 batch isolation)
+	shareFrom(c, "C10", "R2", func(o *core.Obligation) bool { return o.Rule == "R5" && strings.Contains(o.Key, "/R5/batch-isolation") }, 3, "emission loops")
 	for fn, iesName := range siteFn {
 		checkEmissionSite(c, fn, iesName, urrSeq, urrids)
 	}
@@ -154,6 +156,8 @@ func C11(c *core.Ctx) {
 			c.Check("R3", "record-dropped:"+core.FnName(fn), dc.Pos(), okDel, "a URR record is deleted only at an emission site, under its removed mark, after its report was emitted (so the final report still gets the next number)")
 		})
 	}
+	// a record is (re)created only for a Create URR IE (an Update URR handed to CreateURR restarts the counter)
+	handlerDispatch(c, "R3", map[string]bool{"URR": true})
 	// CreateURR installs a fresh record
 	if fn := fnOf(c, "R3", pkgPfcp, "Sess", "CreateURR"); fn != nil {
 		var freshMu *ssa.MapUpdate
@@ -657,6 +661,13 @@ func C12(c *core.Ctx) {
 		c.Floor("R4", n, 3, "report conversion loops")
 	}
 
+	// R6: "when its session is deleted": every way a session ends closes it, and closing removes each URR
+	// through Remove URR, whose reports are the final ones (session-end rules shared with C01 R5/R6)
+	if calls, _ := driverCalls(c); calls != nil {
+		sets := idSets(c, calls)
+		renameRule(c, "R5", "R6", func() { c01Close(c, sets) })
+		c01EndPaths(c, "R6", false)
+	}
 	// R5 creation order in the handlers
 	for _, h := range []string{"handleSessionEstablishmentRequest", "handleSessionModificationRequest"} {
 		fn := fnOf(c, "R5", pkgPfcp, "PfcpServer", h)
